@@ -31,6 +31,7 @@ type FuncContract struct {
 	Ensures    []*Clause
 	LoopInv    map[int][]*Clause
 	LoopDec    map[int]*Clause
+	LoopExit   map[int][]*Clause // `loop K exit EXPR`: holds whenever loop K is left (checked on every exit edge)
 	LoopMod    map[int][]string
 	CallAsrt   []*Clause
 	RetAsrt    []*Clause // assert at return K EXPR
@@ -221,6 +222,11 @@ func parseContractFile(path string) (*PkgContracts, error) {
 					cur.LoopInv[k] = append(cur.LoopInv[k], &Clause{Kind: "loopinv", Text: f[2], Loop: k, Line: it.line})
 				case "decreases":
 					cur.LoopDec[k] = &Clause{Kind: "loopdec", Text: f[2], Loop: k, Line: it.line}
+				case "exit":
+					if cur.LoopExit == nil {
+						cur.LoopExit = map[int][]*Clause{}
+					}
+					cur.LoopExit[k] = append(cur.LoopExit[k], &Clause{Kind: "loopexit", Text: f[2], Loop: k, Line: it.line})
 				case "modifies":
 					for _, p := range strings.Split(f[2], ",") {
 						cur.LoopMod[k] = append(cur.LoopMod[k], strings.TrimSpace(p))
@@ -277,6 +283,9 @@ func (fc *FuncContract) allClauses() []*Clause {
 	}
 	for _, c := range fc.LoopDec {
 		out = append(out, c)
+	}
+	for _, cs := range fc.LoopExit {
+		out = append(out, cs...)
 	}
 	out = append(out, fc.CallAsrt...)
 	out = append(out, fc.RetAsrt...)
